@@ -56,10 +56,17 @@ def make_pair(utype, verdict, r, keys):
         ver = 3 if verdict == "MetadataVerificationError" and r.random() < .5 else 1 if verdict == "MetadataVerificationError" else 2
         doc = metadata.delegating_doc("root", ver, {"root": metadata.rule([pub[1], pub[3]], 1), "key_mgr": metadata.rule([pub[2]], 1)}, r)
         if verdict in ("TypeError", "ValueError"):
-            if r.random() < .5:
+            x = r.randrange(3)
+            if x == 0:
                 doc["version"] = 0
-            else:
+            elif x == 1:
                 trusted["signed"].pop("expiration")
+            else:
+                # the trusted file is NOT root metadata (but happens to delegate a role called "root"), the untrusted root is
+                # signed so that a mere delegation check would pass: only the root-chain check rejects this pair
+                kmd = metadata.delegating_doc("key_mgr", 1, {"root": metadata.rule([pub[1]], 1), "pkg_mgr": metadata.rule([pub[3]], 1)}, r)
+                trusted = {"signatures": rsign(kmd, [2]), "signed": kmd}
+                return trusted, {"signatures": rsign(doc, [1]), "signed": doc}
         signers = [] if verdict == "SignatureError" and r.random() < .5 else [2] if verdict == "SignatureError" else [1]
         return trusted, {"signatures": gsign(doc, signers), "signed": doc}
     if utype == "key_mgr":
@@ -167,7 +174,7 @@ def check(run):
         table[(c["entry"], c["cmd"], c["utype"], c["verdict"], c["signout"])] = c
     rr = random.Random(run.seed)
     keys = gamma.Keys(3, run.seed, offset=800)
-    reps = 1 if quick else 4
+    reps = 3 if quick else 8
     jobs = []
     root = os.path.join(run.scratch, "cli")
     os.makedirs(root, exist_ok=True)
